@@ -102,15 +102,25 @@ def _(fh: "file", start_offset: "opt[int]", maxrange: "int"):
     returns("tuple[opt[int],opt[int]]")
     ghost(after="mz_offset = find_mz_offset(fh, start_offset=start_offset, maxrange=maxrange)",
           do=[first_mz_props(F, s, s + maxrange, maxrange)])
+    ghost(after="image = pestruct.IMAGE_FILE_HEADER(fh)", do=[
+        let("coff", o + s32le(F, o + 60) + 4), assert_(file_pos(fh) == coff + 20),
+        assert_(image.Machine == u16le(F, coff)), assert_(image.NumberOfSections == u16le(F, coff + 2))])
     ghost(before="sections = [pestruct.IMAGE_SECTION_HEADER(fh) for _ in range(image.NumberOfSections)]",
-          do=[let("secbase", file_pos(fh)), let("rva", export_dd.VirtualAddress), let("nsec", image.NumberOfSections)])
+          do=[let("secbase", file_pos(fh)), let("rva", export_dd.VirtualAddress), let("nsec", image.NumberOfSections),
+              assert_(secbase == coff + 20 + (240 if u16le(F, coff) == 34404 else 224)),
+              assert_(rva == u32le(F, coff + 20 + (112 if u16le(F, coff) == 34404 else 96)))])
     loop(0, index="k", invariant=[ds is None, forall(lambda j: not sec_hit(F, secbase, j, rva), 0, k)],
          locals={"ds": "any"})
+    ghost(after="offset = export_dd.VirtualAddress - ds.VirtualAddress + ds.PointerToRawData + mz_offset", do=[
+        let("jj", first_sec(F, secbase, 0, nsec, rva)), assert_(jj >= 0),
+        assert_(offset == rva - u32le(F, secbase + 40 * jj + 12) + u32le(F, secbase + 40 * jj + 20) + o)])
     ghost(loop_head=0, do=[assert_(section.VirtualAddress == u32le(F, secbase + 40 * k + 12)),
                            assert_(section.VirtualSize == u32le(F, secbase + 40 * k + 8)),
                            assert_(section.PointerToRawData == u32le(F, secbase + 40 * k + 20))])
     ghost(after="ds = section", do=[first_sec_found(F, secbase, 0, k, nsec, rva)])
     ghost(loop_exit=0, do=[when(ds is None, [first_sec_none(F, secbase, 0, nsec, rva)])])
+    ghost(after="compile_stamp = image.TimeDateStamp", do=[assert_(compile_stamp == pe_compile_stamp(F, o))])
+    ghost(after="export_stamp = export_dir.TimeDateStamp", do=[assert_(export_stamp == pe_export_stamp(F, o))])
     domain(fh=gen_pe_files(), start_offset=ints(None, 0, 1), maxrange=ints(0, 1, 70, 1024))
 
 
